@@ -620,7 +620,9 @@ pub fn drive(cfg: &Cfg, meta: &PropMeta, scenarios: Vec<Scenario<'_>>, post: Opt
             panic!("HARNESS: run {r} scenario {}: {e}", sc.name);
         }
         // in-process determinism self-test on the first runs of every shard
-        if selftest_runs < selftest_n {
+        // (not for C38: there a differing re-execution is the property's violation, which the
+        // scenario itself reports from its own repeated executions)
+        if selftest_runs < selftest_n && meta.id != "C38" {
             selftest_runs += 1;
             let o2 = run_guarded(sc, &RunIn { run: u64::MAX, run_seed: seed, bytes: &bytes, verbose: false, deep: false });
             if o2.log_hash != o.log_hash {
